@@ -94,7 +94,7 @@ fn main() {
         let depth = std::env::var("VH_TXPOOL_DEPTH").ok().and_then(|d| d.parse().ok()).unwrap_or(s.cfg.depth);
         let b = Bounds::new(depth, &cli)
             .deviations(s.cfg.max_dev)
-            .wall(cli.tier.pick(50, 1400 / n))
+            .wall(cli.tier.pick(50, 1200 / n))
             .states(cli.tier.pick(600_000, 8_000_000));
         run.add(explore(s, &b));
     }
